@@ -34,7 +34,12 @@ theorem wf_of_check (T : Table)
 theorem tables_wf : ∀ lines ∈ tables, (tableOf lines).WF := by
   intro lines h
   simp only [tables, List.mem_cons, List.not_mem_nil, or_false] at h
-  rcases h with rfl | rfl | rfl | rfl
+  rcases h with rfl | rfl | rfl | rfl | rfl | rfl | rfl | rfl | rfl
+  · exact wf_of_check _ (by decide) (by decide)
+  · exact wf_of_check _ (by decide) (by decide)
+  · exact wf_of_check _ (by decide) (by decide)
+  · exact wf_of_check _ (by decide) (by decide)
+  · exact wf_of_check _ (by decide) (by decide)
   · exact wf_of_check _ (by decide) (by decide)
   · exact wf_of_check _ (by decide) (by decide)
   · exact wf_of_check _ (by decide) (by decide)
